@@ -14,7 +14,10 @@
                   ->  ( OUT DT ST ( ( P C ) ... ) RAN SRC )      SRC = remote | local | none: whose stdout/stderr is relayed
                     OUT = ok | proc_err | err_http | err_toolarge | err_gen | err_spawn | panic
                     DT = nodist | dist_ok | dist_error | none     ST = () | ( CODE SIG SUCC )
-                    C = pre | remote | partial | local
+                    C = pre | remote | partial | local        a PRE entry is P or ( P KIND ), KIND 0/1/2 = the old
+                    file is shorter than / as long as / longer than what is written over it
+   leg request:   ( PP ( STEP ... ) )   a history through get_cached_or_compile; see run_request below
+   leg toolchain: ( LIMIT SIZE ( OP ... ) )   the client toolchain cache over requests / restarts; see run_toolchain
    leg args:      ( GCC RIO LANG DD SUPPRESS CFLAG INPUT OUT ( pre ) ( dep ) ( unhashed ) ( common ) ( arch ) EXE CWD ( ( K V ) ... ) )
                     OUT = () | ( bytes )
                   ->  err | ( ( local args ) DIST )     DIST = () | ( ( EXE ( args ) ( ( K V ) ... ) CWD ) )
@@ -22,7 +25,7 @@
 From Coq Require Import List NArith ZArith Bool.
 From Coq Require String.
 Import String.StringSyntax.
-From Sccache Require Import Base.Sx Model.DistStatus Model.DistFallback Model.DistArgs.
+From Sccache Require Import Base.Sx Model.DistStatus Model.DistFallback Model.DistArgs Model.DistHistory.
 Import ListNotations.
 Local Open Scope N_scope.
 Local Open Scope string_scope.
@@ -135,42 +138,83 @@ Definition run_fallback (fixed : bool) (x : sx) : sx :=
   | _ => err "bad fallback case"
   end.
 
-(* ---- leg request: ( FIRST SECOND ), FIRST = ( CLASS DT ST FS RAN SRC ), SECOND = () | the same six fields for the hit ---- *)
+(* ---- leg request: a history of requests through get_cached_or_compile (gcc), main cache + preprocessor cache
+   case  ( PP ( STEP ... ) )      STEP = the ten script fields, then VARIANT CLEAN; PRE entries may be ( P KIND )
+   obs   ( ( CLASS DT ST FS RAN SRC PPRUN SENT ) ... )
+         CLASS = hit | miss | compile_failed | proc_err | err_http | err_toolarge | err_gen | err_spawn | err_zip | panic
+         PPRUN = the local preprocessor ran     SENT = none | full | empty: the translation unit a job was sent ---- *)
 Definition dt_sym (dt : dist_type) : sx :=
   sym (match dt with NoDist => "nodist" | DistOk => "dist_ok" | DistError => "dist_error" end).
 
-Definition run_request (fixed : bool) (x : sx) : sx :=
+Definition dec_step (x : sx) : option step :=
   match x with
-  | SL [g; d; prep; put; al; sub; rn; rw; lc; SL pre] =>
-      let s := {| s_gen := get_bool g; s_dist := get_bool d; s_prep := dec_oclass prep; s_put := dec_oclass put;
-                  s_alloc := dec_alloc al; s_submit := dec_submit sub; s_run := dec_run rn;
-                  s_rewrite := dec_oclass rw; s_local := dec_local lc |} in
-      let f0 := fold_left place_pre pre [] in
-      let r := dist_or_local fixed s f0 in
-      match enc_result r with
-      | SL [_; _; st; fsx; ran; src] =>
-          let '(cls, dt) :=
-            match request_class 0 r with
-            | QMiss dt => (sym "miss", dt_sym dt)
-            | QCompileFailed dt => (sym "compile_failed", dt_sym dt)
-            | QProcErr => (sym "proc_err", sym "none")
-            | QErr KHttp => (sym "err_http", sym "none")
-            | QErr KTooLarge => (sym "err_toolarge", sym "none")
-            | QErr KGen => (sym "err_gen", sym "none")
-            | QErr KSpawn => (sym "err_spawn", sym "none")
-            | QErrZip => (sym "err_zip", sym "none")
-            | QPanic => (sym "panic", sym "none")
+  | SL [g; d; prep; put; al; sub; rn; rw; lc; SL pre; v; cl] =>
+      Some {| st_script := {| s_gen := get_bool g; s_dist := get_bool d; s_prep := dec_oclass prep; s_put := dec_oclass put;
+                              s_alloc := dec_alloc al; s_submit := dec_submit sub; s_run := dec_run rn;
+                              s_rewrite := dec_oclass rw; s_local := dec_local lc |};
+              st_variant := get_N v; st_clean := get_bool cl; st_pre := map dec_pre pre |}
+  | _ => None
+  end.
+
+Fixpoint dec_steps (l : list sx) : option (list step) :=
+  match l with
+  | [] => Some []
+  | x :: r => match dec_step x, dec_steps r with Some a, Some b => Some (a :: b) | _, _ => None end
+  end.
+
+Definition enc_fs (f : fs) : sx := SL (map (fun e => SL [SN (fst e); enc_content (snd e)]) (sort_fs f)).
+Definition enc_src (o : option src) : sx :=
+  match o with Some SrcRemote => sym "remote" | Some SrcLocal => sym "local" | None => sym "none" end.
+
+Definition enc_hobs (o : hobs) : sx :=
+  let '(cls, dt) :=
+    if ho_hit o then (sym "hit", sym "none") else
+    match ho_q o with
+    | QMiss dt => (sym "miss", dt_sym dt)
+    | QCompileFailed dt => (sym "compile_failed", dt_sym dt)
+    | QProcErr => (sym "proc_err", sym "none")
+    | QErr KHttp => (sym "err_http", sym "none")
+    | QErr KTooLarge => (sym "err_toolarge", sym "none")
+    | QErr KGen => (sym "err_gen", sym "none")
+    | QErr KSpawn => (sym "err_spawn", sym "none")
+    | QErrZip => (sym "err_zip", sym "none")
+    | QPanic => (sym "panic", sym "none")
+    end in
+  let st := match ho_hit o, ho_q o, ho_out o with
+            | false, QErrZip, _ => SL []
+            | _, _, OOk _ raw => enc_st raw
+            | _, _, OProcErr raw => enc_st raw
+            | _, _, _ => SL []
             end in
-          let st' := match request_class 0 r with QErrZip => SL [] | _ => st end in
-          let src' := match request_class 0 r with QErrZip => sym "none" | _ => src end in
-          SL [SL [cls; dt; st'; fsx; ran; src'];
-              match second_request 0 r with
-              | Some c => SL [sym "hit"; sym "none"; enc_st 0%Z; SL [SL [SN 0; enc_content c]]; sbool false; src]
-              | None => SL []
-              end]
-      | o => o
+  SL [cls; dt; st; enc_fs (ho_fs o); sbool (ho_ran o); enc_src (ho_src o); sbool (ho_pprun o);
+      match ho_sent o with None => sym "none" | Some TuFull => sym "full" | Some TuEmpty => sym "empty" end].
+
+Definition run_request (x : sx) : sx :=
+  match x with
+  | SL [pp; SL steps] =>
+      match dec_steps steps with
+      | Some l => SL (map enc_hobs (hrun (get_bool pp) h_init l))
+      | None => err "bad step"
       end
   | _ => err "bad request case"
+  end.
+
+(* ---- leg toolchain: the real ClientToolchains under a size limit over several requests / restarts
+   case  ( LIMIT SIZE ( OP ... ) )     OP = restart | ( request NEED LOCAL )
+   obs   ( ( ( WEAK ARCH ) R ) ... )   R = () | ( OUT DT ST FS RAN SRC ) ---- *)
+Definition dec_tcop (x : sx) : tcop :=
+  match x with
+  | SL [_; need; lc] => TcRequest (get_bool need) (dec_local lc)
+  | _ => TcRestart
+  end.
+
+Definition run_toolchain (x : sx) : sx :=
+  match x with
+  | SL [limit; size; SL ops] =>
+      SL (map (fun e => SL [SL [sbool (t_weak (fst e)); sbool (t_archive (fst e))];
+                            match snd e with Some r => enc_result r | None => SL [] end])
+              (tc_run (get_N limit) (get_N size) (tc_init, []) (map dec_tcop ops)))
+  | _ => err "bad toolchain case"
   end.
 
 (* ---- leg args ---- *)
@@ -218,8 +262,8 @@ Definition dispatch (leg : list N) (x : sx) : sx :=
   else if bytes_eqb leg (bs "status_orig") then run_status false x
   else if bytes_eqb leg (bs "fallback") then run_fallback true x
   else if bytes_eqb leg (bs "fallback_orig") then run_fallback false x
-  else if bytes_eqb leg (bs "request") then run_request true x
-  else if bytes_eqb leg (bs "request_orig") then run_request false x
+  else if bytes_eqb leg (bs "request") then run_request x
+  else if bytes_eqb leg (bs "toolchain") then run_toolchain x
   else if bytes_eqb leg (bs "args") then run_args true x
   else if bytes_eqb leg (bs "args_orig") then run_args false x
   else err "unknown leg".
